@@ -31,7 +31,7 @@ enum { P_IRQ_IN_SCHEDULER, P_IRQ_IN_RUN, P_IRQ_IN_KILL, P_IRQ_IN_BODY, P_IRQ_BET
        P_SEND_REFUSED_WAKEUP, P_EVENT_WHILE_HANDLER_RUNNING, P_OBLIGATION_DISCHARGED, P_KILL_RACED_REQUEST,
        P_QUIESCED, P_QUEUE_HEALTH_CHECKED, P_TIMER_FIRED, P_MODE_IRQ, P_MODE_THR, P_OVERSLEEP_CHECKED,
        P_NESTED_SENDS_OVERLAP, P_THR_QUIET_SLEEP_VERDICT, P_LONG_MODE, P_OVER_256_EVENTS,
-       P_TWO_SLEEPERS, P_MARATHON };
+       P_TWO_SLEEPERS, P_MARATHON, P_FIBRE_EXITED, P_FIBRE_FAILED };
 static const char *const probe_names[] = {
 	"interrupt_inside_fibre_scheduler_next", "interrupt_inside_fibre_run", "interrupt_inside_fibre_kill",
 	"interrupt_inside_fibre_body", "interrupt_between_passes", "request_published_after_final_check",
@@ -42,7 +42,7 @@ static const char *const probe_names[] = {
 	"sleep_verdict_checked_against_timers", "nested_event_sends_overlapped",
 	"thread_mode_sleep_verdict_with_no_sender_active", "long_lived_scenario",
 	"more_than_256_events_through_one_queue", "second_sleeping_fibre_armed_a_timeout",
-	"regular_marathon_of_65536_requests_and_passes", NULL };
+	"regular_marathon_of_65536_requests_and_passes", "fibre_run_ended_by_exiting", "fibre_run_ended_by_failing", NULL };
 
 #define NFIB 5
 enum { FE, FY, FS, FW1, FW2 };
@@ -123,6 +123,8 @@ static void body_enter(int x)
 			 x, B[x].dispatches, B[x].reasons);
 }
 
+static uint32_t how_ended;
+
 static int handler_fibre(fibre_t *f)
 {
 	static evt_t *evt;
@@ -161,6 +163,15 @@ static int handler_fibre(fibre_t *f)
 			simrt_point();
 		}
 		in_body = -1;
+		how_ended = quiescing ? 0 : sim_choose(10);
+		if (how_ended == 8) {
+			sim_probe(P_FIBRE_EXITED);
+			PT_EXIT();
+		}
+		if (how_ended == 9) {
+			sim_probe(P_FIBRE_FAILED);
+			PT_FAIL();	/* say, the last event was malformed */
+		}
 		PT_WAIT();
 	}
 	PT_END();
@@ -229,6 +240,17 @@ static int waiting_fibre(fibre_t *f)
 		}
 		simrt_point();
 		in_body = -1;
+		/* a run may also end by exiting or failing: the fibre then starts from its beginning
+		 * the next time there is a reason to run it */
+		how_ended = quiescing ? 0 : sim_choose(8);
+		if (how_ended == 6) {
+			sim_probe(P_FIBRE_EXITED);
+			PT_EXIT();
+		}
+		if (how_ended == 7) {
+			sim_probe(P_FIBRE_FAILED);
+			PT_FAIL();
+		}
 		PT_WAIT();
 	}
 	PT_END();
